@@ -549,3 +549,143 @@ func readerFunctionCheck(c *specialCtx, d *driver, r *prng, idx int) {
 	c.count(fmt.Sprint("readerfn", idx%97))
 	c.tally("reader-function-scripts")
 }
+
+// ---------------------------------------------------------------- the span buffer at screen level vs lean/TM/SpanScreen.lean
+
+func screenRowsStr(sc *te.VerifScreen) string {
+	if len(sc.Rows) == 0 {
+		return "-"
+	}
+	parts := make([]string, len(sc.Rows))
+	for y := range sc.Rows {
+		parts[y] = fmt.Sprintf("%d:%s", sc.Rows[y].Cached, runsStr(sc.Rows[y].Runs))
+	}
+	return strings.Join(parts, "|")
+}
+
+// specialSpanScreen: real span-buffer terminals (rune mode) after generated input; then single
+// operations (one character, LF/IND/RI, SU/SD/IL/DL, EL/ED/ECH, DCH, Resize) applied to the real
+// terminal and — as `SScr.apply` — to the model's run-level screen built from the real rows.
+// Compared: geometry and every row's runs and cached width. The driver also evaluates the
+// refinement the theorems of Props/C02SpanScreen.lean state (abs ∘ apply = applyS ∘ abs) and the
+// invariant before and after.
+func specialSpanScreen(c *specialCtx) {
+	prof := &profile{name: "C02", weights: withWeights(map[string]int{"textwide": 30, "text": 10, "goto": 18, "erase": 14, "sgr": 10, "resize": 3, "margins": 6, "wrap": 5, "scroll": 5}),
+		minLen: 3, maxLen: 30, grid: 0, gmode: 0, chunks: []int{0}}
+	chars := []string{"a", "Z", " ", "é", "中", "🐹", "⸺", "⸻", "Ｗ", "~"}
+	c.parallel(c.n, func(i int, d *driver) {
+		r := newPrng(uint64(c.seed)*7777 + uint64(i))
+		cs := genCase(prof, r)
+		cs.Mode, cs.Grid = 0, false
+		im, pan := runToEnd(&cs)
+		if pan != "" || im == nil {
+			return
+		}
+		if im.vt.Buffered() > 0 {
+			return // the generated input ended inside a sequence or character: what is fed next would complete it
+		}
+		var history []string
+		for k := 0; k < 10; k++ {
+			snap := im.vt.Snap()
+			act := 0
+			if snap.OnAlt {
+				act = 1
+			}
+			sc := snap.Screens[act]
+			W, H := sc.W, sc.H
+			var op, a, b string
+			var bytes []byte
+			resizeTo := [2]int{0, 0}
+			n := 1 + r.intn(max(H, W)+2)
+			switch r.intn(14) {
+			case 0, 1, 2, 3:
+				ch := pick(r, chars)
+				rn := []rune(ch)[0]
+				op, a, b = "put", hex.EncodeToString([]byte(ch)), fmt.Sprint(int(rn))
+				bytes = []byte(ch)
+			case 4:
+				op, a, b, bytes = "lf", "0", "0", []byte("\n")
+			case 5:
+				op, a, b, bytes = "ind", "0", "0", []byte("\x1bD")
+			case 6:
+				op, a, b, bytes = "ri", "0", "0", []byte("\x1bM")
+			case 7:
+				o := pick(r, []string{"su", "sd", "il", "dl"})
+				fin := map[string]string{"su": "S", "sd": "T", "il": "L", "dl": "M"}[o]
+				op, a, b, bytes = o, fmt.Sprint(n), "0", []byte(fmt.Sprintf("\x1b[%d%s", n, fin))
+			case 8:
+				p := r.intn(3)
+				op, a, b, bytes = "el", fmt.Sprint(p), "0", []byte(fmt.Sprintf("\x1b[%dK", p))
+			case 9:
+				p := r.intn(3)
+				op, a, b, bytes = "ed", fmt.Sprint(p), "0", []byte(fmt.Sprintf("\x1b[%dJ", p))
+			case 10:
+				op, a, b, bytes = "ech", fmt.Sprint(n), "0", []byte(fmt.Sprintf("\x1b[%dX", n))
+			case 11:
+				op, a, b, bytes = "dch", fmt.Sprint(n), "0", []byte(fmt.Sprintf("\x1b[%dP", n))
+			case 12:
+				// move the cursor (also onto the second cell of a wide character): not an operation of the model, no comparison
+				feedAll(im, []byte(fmt.Sprintf("\x1b[%d;%dH", 1+r.intn(H), 1+r.intn(W))))
+				continue
+			default:
+				nw, nh := max(1, W+r.intn(7)-3), max(1, H+r.intn(5)-2)
+				op, a, b = "resize", fmt.Sprint(nw), fmt.Sprint(nh)
+				resizeTo = [2]int{nw, nh}
+			}
+			if resizeTo[0] > 0 {
+				if p := im.resize(resizeTo[0], resizeTo[1]); p != "" {
+					return
+				}
+			} else if p := feedAll(im, bytes); p != "" {
+				return
+			}
+			post := im.vt.Snap()
+			ps := post.Screens[act]
+			line := fmt.Sprintf("ss %d %d %d %d %d %d %d %d %d %s %s %s %s %s", W, H, sc.CX, sc.CY, sc.SX, sc.SY, sc.Top, sc.Bot, b2i(sc.Wrap), styRaw(sc.Style), screenRowsStr(&sc), op, a, b)
+			f := strings.Fields(d.ask(line))
+			c.count("ss/" + op)
+			c.tally("spanscreen:" + op)
+			history = append(history, fmt.Sprintf("%s %s %s", op, a, b))
+			desc := fmt.Sprintf("%s %s %s on %dx%d cursor (%d,%d) margins [%d,%d] wrap %v rows %s", op, a, b, W, H, sc.CX, sc.CY, sc.Top, sc.Bot, sc.Wrap, truncate(screenRowsStr(&sc), 600))
+			if len(f) != 13 {
+				c.violation("spanscreen-driver", desc+": no answer from the model driver: "+truncate(strings.Join(f, " "), 200), desc)
+				return
+			}
+			if f[9] != "1" {
+				c.violation("spanscreen-inv", desc+": the real screen does not satisfy the invariant (rows of well-formed runs of width W, cursor and margins inside)", desc)
+				return
+			}
+			impl := fmt.Sprintf("%d %d %d %d %d %d %d %d %d", ps.W, ps.H, ps.CX, ps.CY, ps.SX, ps.SY, ps.Top, ps.Bot, b2i(ps.Wrap))
+			model := strings.Join(f[0:9], " ")
+			if impl != model {
+				c.violation("spanscreen-geometry", fmt.Sprintf("%s: geometry (w h cx cy sx sy top bot wrap) impl[%s] model[%s]", desc, impl, model), map[string]any{"case": cs, "ops": history, "what": desc})
+				return
+			}
+			if ir := screenRowsStr(&ps); ir != f[12] {
+				// name the first row that differs
+				a1, b1 := strings.Split(ir, "|"), strings.Split(f[12], "|")
+				y := 0
+				for y < len(a1) && y < len(b1) && a1[y] == b1[y] {
+					y++
+				}
+				ra, rb := "-", "-"
+				if y < len(a1) {
+					ra = a1[y]
+				}
+				if y < len(b1) {
+					rb = b1[y]
+				}
+				c.violation("spanscreen-rows", fmt.Sprintf("%s: row %d impl[%s] model[%s]", desc, y, ra, rb), map[string]any{"case": cs, "ops": history, "what": desc})
+				return
+			}
+			if f[10] != "1" {
+				c.violation("spanscreen-inv-after", desc+": afterwards the screen does not satisfy the invariant", desc)
+				return
+			}
+			if f[11] != "1" {
+				c.violation("spanscreen-refinement", desc+": the run-level result does not show the cells the cell-level operation computes (abs(apply s op) ≠ applyS (abs s) op)", desc)
+				return
+			}
+		}
+	})
+}
